@@ -428,16 +428,20 @@ def pollHeadTimer (c : Cfg) (i : In) (s : St) : St :=
     { sendResponse c s 0 408 .empty with shutdown := true, headTimer := .inactive }
   else s
 
+/-- the keep-alive timer has fired (l.1079–1092 with fix d7d4f66): SHUTDOWN, clear the timer,
+start the shutdown timer unless one is running; without a disconnect timeout drop the socket -/
+def kaExpire (c : Cfg) (i : In) (s : St) : St :=
+  let s := { s with shutdown := true, kaTimer := .inactive }
+  match c.disconnectDeadline i.cached with
+  | some dl => if s.sdTimer.isActive then s else armSd s dl i.now
+  | none => { s with writeDisc := true }
+
 /-- `poll_ka_timer` (l.1055); `none` = a `debug_assert!` failed -/
 def pollKaTimer (c : Cfg) (i : In) (s : St) : Option St :=
   match s.kaTimer with
   | .active d =>
     if !s.keepAlive || s.st != .none then none
-    else if d ≤ i.now then
-      let s := { s with shutdown := true, kaTimer := .inactive }
-      match c.disconnectDeadline i.cached with
-      | some dl => some (if s.sdTimer.isActive then s else armSd s dl i.now)
-      | none => some { s with writeDisc := true }
+    else if d ≤ i.now then some (kaExpire c i s)
     else some s
   | _ => some s
 
@@ -461,16 +465,15 @@ def pollSdTimer (i : In) (s : St) : SdRes :=
 is ensured *before* the flush (fix: a peer that stops reading cannot hold a lingering
 connection). -/
 def pollLinger (c : Cfg) (i : In) (s : St) : St × List Out × Bool :=
-  let (s, ok) := ensureSdTimer c i s
-  if !ok then ({ s with linger := false, shutdown := true }, [], true)
+  let e := ensureSdTimer c i s
+  if !e.2 then ({ e.1 with linger := false, shutdown := true }, [], true)
   else
-    let (s, w, ready) := flush i s
-    if !ready then (s, w, false)
+    let fl := flush i e.1
+    if !fl.2.2 then (fl.1, fl.2.1, false)
     else
-      let (s, disc) := readAvailable s
-      let s := { s with readBuf := [] }
-      if disc then ({ s with linger := false, readDisc := true, shutdown := true }, w, true)
-      else (s, w, false)
+      let r := readAvailable fl.1
+      if r.2 then ({ r.1 with readBuf := [], linger := false, readDisc := true, shutdown := true }, fl.2.1, true)
+      else ({ r.1 with readBuf := [] }, fl.2.1, false)
 
 /-- l.1327: after reading something, leave the keep-alive state and clear its timer -/
 def kaCancel (s : St) : St :=
@@ -515,16 +518,20 @@ def normalTail (c : Cfg) (s : St) (o : List Out) : Step :=
         else .ret { s := s, outs := o, selfWake := s.linger || s.shutdown }
     else .ret { s := s, outs := o, selfWake := s.linger || s.shutdown }
 
+/-- request / response processing of the normal branch (l.1345–1360): `poll_request`, the
+`should_disconnect` update, `poll_response` -/
+def normalMid (c : Cfg) (i : In) (disc : Bool) (s1 : St) : St × List Out :=
+  let q := pollRequest c i s1
+  let s2 := applyDisc disc q.1
+  let p := pollResponse c i (respFuel s2) s2 []
+  (p.1, q.2.2 ++ p.2)
+
 /-- the normal (not LINGER, not SHUTDOWN) branch of `poll` (l.1322–1464) -/
 def pollNormal (c : Cfg) (i : In) (s : St) (o : List Out) : Step :=
   let r := readAvailable s
-  let s1 := startTimer c i (kaCancel r.1)
-  let q := pollRequest c i s1
-  let s2 := applyDisc r.2 q.1
-  let p := pollResponse c i (respFuel s2) s2 []
-  let s3 := armKa c i p.1
-  let fl := flush i s3
-  normalTail c fl.1 (o ++ q.2.2 ++ p.2 ++ fl.2.1)
+  let m := normalMid c i r.2 (startTimer c i (kaCancel r.1))
+  let fl := flush i (armKa c i m.1)
+  normalTail c fl.1 (o ++ m.2 ++ fl.2.1)
 
 /-- the SHUTDOWN branch of `poll` (l.1312–1321, with the timer of fix 393d1a8) -/
 def pollShutdown (c : Cfg) (i : In) (s : St) (o : List Out) : Res :=
